@@ -51,7 +51,7 @@ TopsAll == {Top(k, r, n) : k \in TopKinds, r \in BOOLEAN, n \in BOOLEAN}
 TopSrcs == {"cwd", "I", "S"}
 
 \* --- aliases: a signature reaches a class through typedef / using aliases (one or two levels, wrappers inside)
-AliasForms == {<<"typedef", "plain">>, <<"using", "plain">>, <<"typedef", "cptr">>, <<"typedef", "rref">>}
+AliasForms == {<<"typedef", "plain">>, <<"using", "plain">>, <<"typedef", "cptr">>, <<"typedef", "cref">>, <<"typedef", "rref">>}
 AliasFormsF == {<<"typedef", "plain">>, <<"typedef", "cptr">>}
 PubOnly == {"published"}
 IgnInv == {"ignoreinvolved"}
